@@ -1,5 +1,6 @@
 import Req.Driver.Proto
 import Req.H1.BufLine
+import Req.Client.Dump
 /-! Driver lanes of C13. -/
 namespace Req.Driver.L.C13
 open Req.Proto Req.H1.BufLine
@@ -73,8 +74,73 @@ def laneRl : List String → String
     | _, _, _, _ => "bad-op"
   | _ => "bad-op"
 
+/-! #### routing / expected dump -/
+open Req.Client.Dump in
+def optW (n : Nat) : Option Writer := if n = 0 then none else some n
+
+open Req.Client.Dump in
+/-- `out,reqOut,respOut,reqHOut,reqBOut,respHOut,respBOut,qh,qb,rh,rb,async` (writers: 0 = nil);
+`-` = no dumper at that level. -/
+def parseOpts (s : String) : Option (Option Opts) :=
+  if s == "-" then some none else
+  match decodeNatList s with
+  | some [o, qo, ro, qho, qbo, rho, rbo, qh, qb, rh, rb, a] =>
+    some (some { output := optW o, requestOutput := optW qo, responseOutput := optW ro,
+                 requestHeaderOutput := optW qho, requestBodyOutput := optW qbo,
+                 responseHeaderOutput := optW rho, responseBodyOutput := optW rbo,
+                 requestHeader := qh != 0, requestBody := qb != 0, responseHeader := rh != 0,
+                 responseBody := rb != 0, async := a != 0 })
+  | _ => none
+
+open Req.Client.Dump in
+def mkExchanges : List Bytes → Option (List Exchange)
+  | [] => some []
+  | a :: b :: c :: d :: rest => (mkExchanges rest).map (⟨a, b, c, d⟩ :: ·)
+  | _ => none
+
+def dedupSorted (l : List Nat) : List Nat :=
+  (l.foldl (fun acc x => if acc.contains x then acc else x :: acc) []).reverse.mergeSort
+
+open Req.Client.Dump in
+/-- `c13exp <client opts|-> <request opts|-> <parts: 4 per attempt>` → per writer (sorted, only
+non-empty) the bytes it must hold, and which levels deliver through the async channel.
+Options go through `newDumper` (nil Output → stderr) like every dumper of the library. -/
+def laneExp : List String → String
+  | [c, r, parts] =>
+    match parseOpts c, parseOpts r, decodeList parts with
+    | some co, some ro, some ps =>
+      match mkExchanges ps with
+      | none => "bad-op"
+      | some es =>
+        let ds := getDumpers (co.map newDumper) (ro.map newDumper)
+        let evs := expectedEvents ds es
+        let ws := dedupSorted (evs.map (·.writer))
+        let body := ws.filterMap fun w =>
+          let b := expectedDump ds es w
+          if b.isEmpty then none else some ("w" ++ toString w ++ "=" ++ encodeHex b)
+        let ch := (match co with | some o => if usesChannel .client o then "c" else "" | none => "") ++
+                  (match ro with | some o => if usesChannel .request o then "r" else "" | none => "")
+        " ".intercalate body ++ " chan=" ++ (if ch.isEmpty then "-" else ch)
+    | _, _, _ => "bad-op"
+  | _ => "bad-op"
+
+open Req.Client.Dump in
+/-- `c13route <opts>` → `enabled bits` and the resolved writer of each part, after `newDumper`
+(`n`) or for the raw options as `SetCommonDumpOptions` installs them (`r`). -/
+def laneRoute : List String → String
+  | [mode, o] =>
+    match parseOpts o with
+    | some (some o0) =>
+      let o := if mode == "n" then newDumper o0 else o0
+      " ".intercalate (Part.all.map fun p =>
+        (if o.enabled p then "1" else "0") ++ ":" ++ toString (o.resolve p)) ++ " out=" ++ toString o.out
+    | _ => "bad-op"
+  | _ => "bad-op"
+
 def lanes : List (String × (List String → String)) := [
-  ("c13rl", laneRl)
+  ("c13rl", laneRl),
+  ("c13exp", laneExp),
+  ("c13route", laneRoute)
 ]
 
 end Req.Driver.L.C13
